@@ -48,6 +48,17 @@ def exact_reads(chk, prog, rid):
                 d = describe(prog, fb, {"k": "copy", "pl": t["dest"]})
                 users = [c for blk2, c in fb.calls_to(r"Result::<T, E>::map_err$") if core.op_local(c["args"][0]) == t["dest"]["l"]]
                 handled = bool(users)
+                # ... and to ReadError whatever the I/O error kind is: a frame cut off by the peer's disconnect is a read error, not an orderly close
+                for c_ in users:
+                    f_ = describe(prog, fb, c_["args"][1]) if len(c_["args"]) > 1 else None
+                    mb = prog.bodies.get(f_[1]) if isinstance(f_, tuple) and f_[0] in ("closure", "fn") and isinstance(f_[1], str) else None
+                    if mb is not None:
+                        r_ = describe(prog, mb, 0)
+                        alts_ = r_[1] if isinstance(r_, tuple) and r_[0] == "multi" else [r_]
+                        only_read = all(isinstance(a_, tuple) and a_[0] == "variant" and a_[2] == "ReadError" for a_ in alts_)
+                        chk.ob(rid, fn, "a failed read_exact is reported as ReadError for every error kind", only_read,
+                               f"the error mapper returns {[a_[2] if isinstance(a_, tuple) and a_[0] == 'variant' else '?' for a_ in alts_]}: a truncated frame is reported as something other than a read error "
+                               "(e.g. as an orderly close, after which the stream is marked closed)", where=fb.where(blk))
                 if not handled:
                     # `match stream.read_exact(..) { Ok(()) => .., Err(_) => return Err(..) }`: the Err edge only leads to error returns
                     from .c01 import some_edge_of as _soe
